@@ -1004,6 +1004,30 @@ pub fn is_ident_nint_data_type(cddl: &CDDL, ident: &Identifier) -> bool {
   })
 }
 
+/// The counted occurrence forms `0*1`, `0*` (or `*` with no bounds spelled as
+/// `0*`) and `1*` denote the same bounds as `?`, `*` and `+` (RFC 8610 3.2);
+/// the validators key some of their logic on the shorthand variants, so the
+/// spelled-out forms are mapped onto them.
+pub fn normalize_occur(o: Occur) -> Occur {
+  match o {
+    #[cfg(feature = "ast-span")]
+    Occur::Exact { lower, upper, span } => match (lower.unwrap_or(0), upper) {
+      (0, Some(1)) => Occur::Optional { span },
+      (0, None) => Occur::ZeroOrMore { span },
+      (1, None) => Occur::OneOrMore { span },
+      _ => o,
+    },
+    #[cfg(not(feature = "ast-span"))]
+    Occur::Exact { lower, upper } => match (lower.unwrap_or(0), upper) {
+      (0, Some(1)) => Occur::Optional {},
+      (0, None) => Occur::ZeroOrMore {},
+      (1, None) => Occur::OneOrMore {},
+      _ => o,
+    },
+    _ => o,
+  }
+}
+
 /// Numbers are defined as `number = int / float`
 /// Therefore, this enum represents which type (or both) is allowed in a given position
 #[derive(Copy, Clone, Debug, PartialEq, Eq)]
